@@ -12,7 +12,7 @@ theorem decRoundUp_smtlib (rm : RM) (neg odd : Bool) (rem dd : Nat) :
 
 theorem decToIntegral_smtlib (f : Fmt) (rm : RM) (a : Nat) :
     decToIntegral f (smtlibDecimal rm) a = toIntegral f rm a := by
-  unfold decToIntegral toIntegral
+  unfold decToIntegral toIntegral toIntegralMag
   simp only [decRoundUp_smtlib]
 
 /-- `ROUND_UP` (the table entry for RNA before the fix) is not round-to-nearest-away -/
